@@ -97,8 +97,21 @@ def cu2qu_error_milli(src, f2):
     worst = 0.0
     measured = 0
     gs = f2.getGlyphSet()
+    glyf = f2["glyf"] if "glyf" in f2 else None
     for name, g in src.items():
-        if g["comps"] or not g["cs"] or name not in gs:
+        if name not in gs:
+            continue
+        if g["comps"]:
+            # a MIXED glyph (own contours + components) is decomposed by the pre-processor, from the cubic source: measured
+            # against its resolved source form.  (Pure composites that fontTools has to decompose when building glyf --
+            # 2x2 outside F2Dot14 -- are decomposed after the conversion by necessity: environment, not measured.)
+            if not g["cs"] or glyf is None or glyf[name].isComposite() or glyf[name].numberOfContours <= 0:
+                continue
+            try:
+                g = resolved_form(src, name)
+            except Exception:  # noqa -- inexact / missing base: not measured
+                continue
+        if not g["cs"]:
             continue
         if not any(p[2] == "curve" for c in g["cs"] for p in c):
             continue
@@ -114,8 +127,14 @@ def cu2qu_error_milli(src, f2):
         if len(contours) != len(g["cs"]):
             return 10 ** 6, measured
         for c_src, c_out in zip(g["cs"], contours):
-            a = _sample_contour_source(c_src)
-            b = _sample_recording(c_out)
+            # sampling density grows with the size of the contour, so that the chord error of the sampled polylines stays
+            # well below the tolerance for enlarged shapes too
+            xs = [p[0] / PS for p in c_src]
+            ys = [p[1] / PS for p in c_src]
+            dim = max(max(xs) - min(xs), max(ys) - min(ys), 1.0)
+            n = int(min(120, max(24, 24 * math.ceil(dim / 250.0))))
+            a = _sample_contour_source(c_src, n)
+            b = _sample_recording(c_out, n)
             worst = max(worst, _hausdorff(a, b))
             measured += 1
     return int(worst * 1000), measured
@@ -278,5 +297,62 @@ def interp_cff_compile(case):
             continue
         except Exception as e:  # noqa
             rec["ret"] = {"err": "Save:" + type(e).__name__}
+        recs.append(rec)
+    return recs
+
+
+def interp_tt_compile(case):
+    """case: {cid, lib, masters: [abstract glyph sets], kwargs, via: "list" | "ds"}; compileInterpolatableTTFs /
+    compileInterpolatableTTFsFromDS; one PipelineTrace record per master, judged against that master's own source."""
+    import copy
+
+    import ufo2ft
+
+    from . import dsbuild
+
+    lib = case.get("lib", "ufoLib2")
+    nm = len(case["masters"])
+    locs = [0, 8] if nm == 2 else [0, 4, 8]
+    fam_masters = []
+    for k, gs in enumerate(case["masters"]):
+        ufo = {"glyphs": copy.deepcopy(gs), "order": sorted(gs), "glyphNames": sorted(gs),
+               "info": {"unitsPerEm": 1000, "ascender": 800, "descender": -200, "familyName": "InterpTT", "styleName": f"M{k}"}}
+        fam_masters.append({"loc": {"Weight": locs[k]}, "ufo": ufo, "name": f"M{k}"})
+    family = {"axes": [{"name": "Weight", "tag": "wght", "min": 0, "default": 0, "max": 8}], "masters": fam_masters, "lib": {}}
+    ds = dsbuild.build_designspace(family, lib)
+    kwargs = dict(case.get("kwargs") or {})
+    kw = dict(kwargs)
+    kw["useProductionNames"] = False
+    srcs = [absfont.abs_glyphset({g.name: g for g in s.font}) for s in ds.sources]
+    try:
+        if case.get("via") == "list":
+            outs = list(ufo2ft.compileInterpolatableTTFs([s.font for s in ds.sources], **kw))
+        else:
+            outs = [s.font for s in ufo2ft.compileInterpolatableTTFsFromDS(ds, **kw).sources]
+        err = ""
+    except Exception as e:  # noqa
+        outs, err = [None] * nm, type(e).__name__ + ":" + str(e)[:80]
+    recs = []
+    for k, (src, ttf) in enumerate(zip(srcs, outs)):
+        rec = {"tid": f"{case['cid']}-m{k}", "flavor": "tt", "src": src, "master": k, "events": [],
+               "opts": {"skip": [], "tolS": PS // 2, "inplace": False, "flatten": bool(kwargs.get("flattenComponents", False)),
+                        "convertCubics": True, "reverse": bool(kwargs.get("reverseDirection", True)), "expectErr": "",
+                        "tolMilli": int(1000 * ((kwargs.get("cubicConversionError") or 0.001) * 1000 + 1.5))}}
+        if err:
+            rec["ret"] = {"err": err}
+            recs.append(rec)
+            continue
+        try:
+            data, f2 = project.save_reload(ttf)
+            ret = {"order": f2.getGlyphOrder(), "adv": project.advances(f2), "glyf": project.glyf_glyphs(f2)}
+            em, n = cu2qu_error_milli(src, f2)
+            if n:
+                ret["errMilli"] = em
+            mp = f2["maxp"]
+            ret["maxp"] = {"maxComponentElements": mp.maxComponentElements, "maxComponentDepth": mp.maxComponentDepth, "numGlyphs": mp.numGlyphs}
+            rec["ret"] = ret
+        except absfont.Inexact as e:
+            recs.append({"tid": rec["tid"], "skip": True, "why": f"inexact output: {e}"})
+            continue
         recs.append(rec)
     return recs
